@@ -761,10 +761,26 @@ def atleast_2d(*arys):
 
 def expand_dims(a, axis):
     a = _live(a)
-    key = [slice(None)] * a.ndim
-    axis = axis if axis >= 0 else a.ndim + 1 + axis
-    key.insert(axis, None)
+    axes = tuple(axis) if isinstance(axis, (tuple, list)) else (axis,)
+    nd = a.ndim + len(axes)
+    axes = sorted(ax if ax >= 0 else nd + ax for ax in axes)
+    key = []
+    src = 0
+    for k in range(nd):
+        if k in axes:
+            key.append(None)
+        else:
+            key.append(slice(None))
+            src += 1
     return a[tuple(key)]
+
+
+def shape(a):
+    return tuple(asarray(a).shape) if not isinstance(a, (int, float, complex)) and not is_scalar_like(a) else ()
+
+
+def ndim(a):
+    return len(shape(a))
 
 
 def squeeze(a, axis=None):
